@@ -43,6 +43,7 @@ type c06Target = struct {
 	Name                                                                   string
 	F, Ff, G, Opt, Level, Remote, Field, Enabled, LocalPort, MaxLatency, H1 any
 	Extras, Tunnel, Server, T1, Blk, Point, Db, AB, T                      c06Inner
+	Pt                                                                     *c06Leaf // a pointer where a nested block wants a struct: an error, not a panic
 }
 
 // bindValues writes a small program whose bound block holds values of every kind,
@@ -62,7 +63,7 @@ func bindValues(r *prng.R) []byte {
 			fmt.Fprintf(&sb, " %s = %s\n", prng.Pick(r, fields), prng.Pick(r, vals))
 		}
 		if r.Chance(1, 3) {
-			fmt.Fprintf(&sb, " def %s %s{ f = %s }\n", prng.Pick(r, []string{"extras", "point", "db", "t1"}), prng.Pick(r, []string{"", `"i" `}), prng.Pick(r, vals))
+			fmt.Fprintf(&sb, " def %s %s{ f = %s }\n", prng.Pick(r, []string{"extras", "point", "db", "t1", "pt", "pt"}), prng.Pick(r, []string{"", `"i" `}), prng.Pick(r, vals))
 		}
 		sb.WriteString("}\n")
 	}
